@@ -159,6 +159,19 @@ class CounterDict(dict):
     def vc_missing(self, eng, k):
         return 0
 
+    def vc_binop(self, eng, op, other, reflected, node=None):
+        """Counter + Counter (also `+=`): counts added key by key, keys whose sum is not positive are dropped (CPython)"""
+        if not isinstance(op, ast.Add) or not isinstance(other, dict):
+            raise Unsupported('Counter %s %s' % (type(op).__name__, type(other).__name__))
+        a, b = (other, self) if reflected else (self, other)
+        out = CounterDict()
+        for k in list(a.keys()) + [k for k in b.keys() if k not in a]:
+            v = eng.binop(ast.Add(), a.get(k, 0), b.get(k, 0))
+            pos = eng.order(ast.Gt(), v, 0, None)
+            if pos is True or (pos is not False and eng.branch(pos)):
+                out[k] = v
+        return out
+
     def vc_most_common(self, eng, args, kwargs):
         items = list(self.items())
         if any(is_sym(v) for _, v in items):
